@@ -227,7 +227,7 @@ def R3_liquidity_rounding(run):
 
 def R4_floors(run):
     run.title("R4", "what the pool credits is floored: position fee/reward credit uses the floor multiply (C07.R5 instances), reward growth the floor mul-div, "
-                    "protocol share and LP growth truncating division (C06.R2 instances)")
+                    "protocol share and LP growth truncating division (C06.R2 instances); fee growth is flipped, handed to crossed ticks and credited side-consistently (C07.R2/R5/R6 instances)")
     facts = run.facts
     for path in ("manager::position_manager::next_position_modify_liquidity_update", "pinocchio::ported::manager_liquidity_manager::pino_next_position_modify_liquidity_update"):
         fn = facts.need_fn(path)
@@ -244,6 +244,13 @@ def R4_floors(run):
     ok = not any((callee_path(t) or "").endswith(("div_ceil", "div_round_up", "checked_mul_div_round_up")) for _, t in fn.calls())
     divs = [st for bb in fn.blocks for st in bb["s"] if st["k"] == "=" and st["rv"].get("bin") == "Div"]
     run.check("R4", "lp-growth-floor", ok and len(divs) == 1, "calculate_fees must use one truncating division for the LP growth", loc=fn.loc(), detail="truncating Div")
+    # fee growth is booked once: the running growth of the input token is what a crossed tick flips against (C07.R2, C07.R6) and
+    # what positions are credited from (C07.R5) - a stale or wrong-side growth credits fees nobody paid
+    from rules.common import RuleProxy
+    from rules import C07
+    C07.R2_flip_on_cross(RuleProxy(run, "R4"))
+    C07.R5_credit(RuleProxy(run, "R4"))
+    C07.R6_swap_growth_handoff(RuleProxy(run, "R4"))
 
 
 def R5_swap_sides(run):
